@@ -264,6 +264,9 @@ func (st *StateDB) UpdateDelegation(d common.Address, val *Validator, tokenChang
 	dfrom.Stake.Set(newStake)
 
 	newVal := val.PartialCopy()
+	// PartialCopy shares the Delegations slice with val, and val is what the journal keeps for revert:
+	// give newVal its own slice so that UpdateDelegationFrom below can not edit the old record in place.
+	newVal.Delegations = append(make(DelegationFroms, 0, len(val.Delegations)+1), val.Delegations...)
 	newVal.Token.Add(newVal.Token, tokenChanged)
 	newVal.Stake.Add(newVal.Stake, delta)
 
